@@ -485,7 +485,7 @@ func faultConfig() *pgen.Config {
 
 func init() {
 	register("C05", "fault_enumeration", func(c *vf.Ctx) {
-		c.SetRule("for each generated program: an uninterrupted baseline run records the ordered list of mrp hook hits (K points between filesystem effects) and job-side points; a case = (program, crash spec sequence) where a crash spec is (hook point, occurrence, KILL|TERM|INT) or (job, start|outs|end, signal to mrp); after the crash: wait for orphans, remove _lock iff SIGKILL, restart with the same invocation (optionally crash again), final restart. Verdict: final exit 0; canonical final _outs and outs/ content tokens equal the baseline; no job whose _complete marker predates the interruption has a later start event; no _lock after a handled signal; a restart making no progress for 20 loop iterations is a stall. distinct = (program, point name, occurrence, signal); non-trivial = the crash actually fired.")
+		c.SetRule("for each generated program: an uninterrupted baseline run records the ordered list of mrp hook hits (K points between filesystem effects) and job-side points; a case = (program, crash spec sequence) where a crash spec is (hook point, occurrence, KILL|TERM|INT) or (job, start|outs|end, signal to mrp); after the crash: wait for orphans, remove _lock iff SIGKILL, restart with the same invocation (optionally crash again), final restart. Verdict: final exit 0; canonical final _outs and outs/ content tokens equal the baseline; no job whose _complete marker predates the interruption has a later start event; no _lock after a handled signal; a restart making no progress for 20 loop iterations is a stall. Besides the stratified sample of point classes, every hook hit of the post-processing window (after the last job: final VDR, moving files into outs/, rewriting the top-level _outs, final state, unlock) is used as a crash point, and one program in three is a file-passing skeleton; file-valued outputs are compared by content and by location class (under outs/ or elsewhere). distinct = (program, point name, occurrence, signal); non-trivial = the crash actually fired.")
 		c.Assume("all stages run under mrjob (src comp)")
 		c.Assume("after SIGKILL the operator removes the stale _lock, as documented")
 		c.Assume("probe outputs are a deterministic function of canonical arguments, so the baseline is comparable")
@@ -1049,7 +1049,7 @@ func runFailCase(c *vf.Ctx, fp *faultProgram, idx int, fs failSpec) *failOutcome
 
 func init() {
 	register("C06", "fault_enumeration", func(c *vf.Ctx) {
-		c.SetRule("for each generated program with a fault-free baseline: a case = (failure site = one job, manifestation in {error pipe text, ASSERT:, exit code with/without outs, SIGSEGV/SIGKILL of the stage, SIGKILL of mrjob, truncated / missing / missing-key / wrong-type _outs (the last two under --strict=error), bad or missing _stage_defs}, one-shot or repeated, --autoretry 0|2). Verdict: mrp exits non-zero and never prints success (a one-shot fault under auto-retry may instead end in success equal to the baseline); the report names the failing stage call; no job of a transitively dependent call (reference model's dataflow) or later phase of the same fork starts; after removing the fault a restart completes with the baseline outputs and does not re-execute jobs that had completed. distinct = (program, job, manifestation, options); non-trivial = the fault actually fired.")
+		c.SetRule("for each generated program with a fault-free baseline: a case = (failure site = one job, manifestation in {error pipe text, ASSERT:, exit code with/without outs, SIGSEGV/SIGKILL of the stage, SIGKILL of mrjob, truncated / missing / missing-key / wrong-type _outs (the last two under --strict=error), bad or missing _stage_defs}, one-shot or repeated, --autoretry 0|2). Verdict: mrp exits non-zero and never prints success (a one-shot fault under auto-retry may instead end in success equal to the baseline); the report names the failing stage call; no job of a transitively dependent call (reference model's dataflow) or later phase of the same fork starts; after removing the fault a restart completes with the baseline outputs and does not re-execute jobs that had completed; with --autoretry=N the failing job is executed at most N+1 times by one mrp, also when the fault looks transient (signal) on every attempt. Directed sites: bad outputs of non-last chunks of multi-chunk forks (a splitting skeleton is always among the programs), preflight jobs, Python-only failures. distinct = (program, job, manifestation, options); non-trivial = the fault actually fired.")
 		c.Assume("stages run under mrjob (src comp); python adapter and bare exec stages are not covered by this check")
 		c.Assume("ill-typed but parseable outputs are asserted under --strict=error only")
 		nProg := c.Pick(4, 30)
